@@ -172,7 +172,12 @@ func (h *NtfnsHandler) Start() error {
 		}
 	}
 
-	h.initTaskChan()
+	if err = h.initTaskChan(); err != nil {
+		// without the queue the worker cannot run (and unfinished imports / removals would not
+		// be resumed): report the failed start instead of starting half of the follower
+		logging.CPrint(logging.ERROR, "NtfnsHandler.Start(): initTaskChan error", logging.LogFormat{"err": err})
+		return err
+	}
 	h.quitWg.Add(2)
 	go handle(h)
 	go worker(h)
@@ -788,8 +793,8 @@ func (h *NtfnsHandler) reorg(dbtx mwdb.DBTransaction, currentBest txmgr.BlockMet
 // initTaskChan creates the task queue and re-queues the unfinished imports and removals
 // recorded in the wallet status. It runs before the worker goroutine starts, because API
 // calls use the queue as soon as Start has returned.
-func (h *NtfnsHandler) initTaskChan() {
-	mwdb.View(h.walletMgr.db, func(tx mwdb.ReadTransaction) error {
+func (h *NtfnsHandler) initTaskChan() error {
+	return mwdb.View(h.walletMgr.db, func(tx mwdb.ReadTransaction) error {
 		wss, err := h.walletMgr.syncStore.GetAllWalletStatus(tx)
 		if err != nil {
 			return err
